@@ -36,6 +36,8 @@ def run(ctx):
     r133(ctx, m)
     r134(ctx, m)
     r135(ctx)
+    from . import callsigs as _cs
+    _cs.general_rules(ctx, 'R13', ['api.ParquetFile.to_pandas', 'api.ParquetFile.count', 'api.ParquetFile.read_row_group_file', 'api.ParquetFile.iter_row_groups', 'core.read_row_group', 'core.read_row_group_arrays', 'core.read_col', 'api.ParquetFile._column_filter', 'api.filter_row_groups'])
 
 
 def _stores(func, name):
